@@ -21,11 +21,14 @@ DRIVER = "TraitsVerif/Driver/Legacy.lean"
 PROPS_MODULES = ["TraitsVerif.Props.C16"]
 TRANSLATORS = []
 RULE = ("names: 1-3 links over child (Instance) / kids (List) / byname (Dict) with '.' or ':' after each link, final "
-        "value|aux, handler signatures with 0, 3, 4 arguments; histories of 1-12 operations built with a shadow tree so "
+        "value|aux, handler signatures with 0, 3, 4 arguments (1 and 2 arguments with ':' links only, implementation + "
+        "oracle only); histories of 1-12 operations built with a shadow tree so "
         "that ~60% of the mutations hit an object currently reachable along the name at the link the name follows "
-        "there, the rest hit off-path attributes, detached objects, invalid indices (skipped on both sides), "
-        "removal and re-registration; after EVERY operation every allocated object is probed on both scalars. "
-        "Thorough adds all histories of length <= 3 over a 13-19 letter alphabet on a 3-object tree for 8 fixed names. "
+        "there, the rest hit off-path attributes, detached objects, invalid indices / keys / objects (skipped on both "
+        "sides), removal and re-registration; after EVERY operation every allocated object (also detached ones) is "
+        "probed on both scalars. Exhaustive: all histories of length <= 2 (quick) / <= 3 (thorough) over an 8-24 letter "
+        "alphabet (every op kind on the two upper objects, probes, rm, rg) on a 3-object tree for 8 fixed names, "
+        "registered before and after the tree is built. "
         "A case is non-trivial when some handler was called; distinct = distinct canonical output line")
 TRUSTED = ["the reachability specification `reach`/`specCalls` (Model/Legacy.lean) is what observe is taken to promise; "
            "it is re-computed independently in Python on the real object graph (c16lib.levels) by the oracle",
@@ -56,6 +59,7 @@ def corpus():
 
 def generate(rng, tier):
     if tier == "quick":
+        yield from G.exhaustive(2)
         n = 1500
     elif tier == "thorough":
         yield from G.exhaustive(3)
@@ -72,5 +76,5 @@ def run_impl(case):
 
 
 def nontrivial(case, out):
-    return "L=-" != out and ("L=" in out) and any(
-        (" L=-" not in g) or ("P=-/-/-/-" not in g) for g in out.split(" ; ") if g.startswith("ok"))
+    """Some handler was called (during an operation or by a probe)."""
+    return any(g.startswith("ok") and (" L=- O=- " not in g or " P=-/-/-/- " not in g) for g in out.split(" ; "))
